@@ -1,9 +1,13 @@
 import Xo.Props.C02
+import Xo.Lemmas.Path
+import Xo.Props.C11
 /-! C07 — C setters change exactly one element; which bytes the accessors touch (property theorems only).
 
-The in-bounds clause for well-formed objects needs the layout writer and is in `Xo/Props/C07b.lean` once the
-layout model covers the type; here: the store of a setter and the complete list of loads of every accessor,
-for all paths, indices, objects and memories. -/
+Here: the store of a setter and the complete list of loads of every accessor, for all paths, indices, objects and
+memories; and the in-bounds clause for well-formed reference-free objects (`C07_leaf_in_extent`, `C07_store_in_extent`):
+the element a path ends in lies inside the extent of the enclosing object as the writer laid it out, so the one store
+of a setter - which is at the documented address (C07_set_exact, C02_addr; `leafAt` is that address, executed against the
+library's own offsets on every generated assignment) - never leaves the object. -/
 namespace CGen
 
 theorem loadsAll_append (ld : Load) (obj : Int) (idx : List Int) (a b : List Stmt) (off : Int) :
@@ -80,5 +84,20 @@ example :
     let f : CFun := ⟨.struct "T" [], [.ty (.struct "T" []), .field "x" 16 true, .ty arr, .index arr, .ty (.scalar .i32)], .set⟩
     f.accesses (fun a => if a = 116 then 40 else 0) 100 [3] = [(116, 8), (100 + (40 + (16 + 3 * 4)), 4)] := by
   decide
+
+/-- **in bounds**: in a well-formed object the scalar element at the end of any nested path (fields, items; static and dynamic
+sizes) lies inside the object's extent -/
+theorem C07_leaf_in_extent (t : Lay.Ty) (v : Lay.Val) (hw : t.WF) (hc : Lay.Conf t v) (p : List Nat) (lo w : Nat)
+    (hl : Lay.leafAt t v p = some (lo, w)) : lo + w ≤ Lay.vsize t v := by
+  obtain ⟨_, _, _, _, _, _, _, _, _, _, _, h⟩ := Lay.leaf_decomp p t v lo w 0 hw hc hl (Nat.pow_pos (by decide))
+  exact h
+
+/-- the store of the element's bytes changes bytes of the object's extent only, and only those of the element -/
+theorem C07_store_in_extent (t : Lay.Ty) (v : Lay.Val) (hw : t.WF) (hc : Lay.Conf t v) (p : List Nat) (lo w : Nat)
+    (hl : Lay.leafAt t v p = some (lo, w)) (m : MemS.Mem) (off b : Nat) (hb : off + Lay.vsize t v ≤ m.length) :
+    (Lay.setScalar m (off + lo) w b).length = m.length ∧
+    ∀ i, (i < off + lo ∨ off + lo + w ≤ i) → (Lay.setScalar m (off + lo) w b)[i]? = m[i]? := by
+  have h := C07_leaf_in_extent t v hw hc p lo w hl
+  exact Lay.C11_scalar_never_overruns m (off + lo) w b (by omega)
 
 end CGen
